@@ -27,6 +27,9 @@ type l0Config struct {
 	ArrayOnly   bool     `json:"array_only"` // documents: one top-level array "arr" is the playground (C04)
 	TxPct       int      `json:"tx_pct"`     // extra probability (percent) of a transaction action
 	TxStopOnErr bool     `json:"tx_stop_on_err"`
+	WideFirst   bool     `json:"wide_first,omitempty"` // list/document: every initial replica starts with one wide operation (11-25 values: large delimiters at small clock values)
+	SoloRun     int      `json:"solo_run,omitempty"`   // after the wide operations replica 0 makes this many local calls in a row (its clock walks through 2..SoloRun+1 without gaps)
+	Nested      bool     `json:"nested,omitempty"` // documents: containers inside arrays are the playground (batches of nested values, later edits inside them)
 }
 
 // l0Action is one step of a history.
@@ -210,7 +213,24 @@ func (m *l0Machine) nextTag(r int) sim.Val {
 	return sim.S(fmt.Sprintf("s%d#%d", m.tagN, r))
 }
 
+// nestedVal draws a small container value (object or array, sometimes two levels).
+func (m *l0Machine) nestedVal(rt *rapid.T, label string) sim.Val {
+	k := rapid.SampledFrom(keyPoolPlain[:3]).Draw(rt, label+".nk")
+	switch rapid.IntRange(0, 3).Draw(rt, label+".nshape") {
+	case 0:
+		return sim.Obj(sim.KV{K: k, V: genPrim(rt, label+".np")})
+	case 1:
+		return sim.Arr(genPrim(rt, label+".np0"), genPrim(rt, label+".np1"))
+	case 2:
+		return sim.Obj(sim.KV{K: k, V: sim.Arr(genPrim(rt, label+".np"))})
+	}
+	return sim.Arr(sim.Obj(sim.KV{K: k, V: genPrim(rt, label+".np")}))
+}
+
 func (m *l0Machine) genVal(rt *rapid.T, r int, label string) sim.Val {
+	if m.cfg.Nested && !m.cfg.Tagged && rapid.IntRange(0, 2).Draw(rt, label+".forcenested") > 0 {
+		return m.nestedVal(rt, label)
+	}
 	if m.cfg.Tagged {
 		if m.cfg.Kind == sim.Document && rapid.IntRange(0, 5).Draw(rt, label+".nestedarr") == 0 {
 			return sim.Arr(m.nextTag(r), m.nextTag(r))
@@ -383,10 +403,39 @@ func (m *l0Machine) genDocCall(rt *rapid.T, r int, view interface{}) sim.Call {
 	}
 	// prefer deeper containers sometimes so nested edits by other replicas happen
 	c := cs[rapid.IntRange(0, len(cs)-1).Draw(rt, "container")]
+	insertBelow := 5
+	if m.cfg.Nested {
+		var arrs, inArr []containerRef
+		for _, x := range cs {
+			through := false
+			for _, st := range x.path {
+				if st.I != nil {
+					through = true
+				}
+			}
+			switch {
+			case through:
+				inArr = append(inArr, x)
+			case x.isArr:
+				arrs = append(arrs, x)
+			}
+		}
+		if len(arrs) == 0 {
+			// plant the playground: an array of nested values
+			return sim.Call{M: "PutToObject", Key: "arr", Vals: []sim.Val{sim.Arr(m.nestedVal(rt, "plant0"), m.nestedVal(rt, "plant1"), sim.S("p"), m.nestedVal(rt, "plant2"))}}
+		}
+		switch w := rapid.IntRange(0, 4).Draw(rt, "nestedpick"); {
+		case w < 2 && len(inArr) > 0:
+			c = inArr[rapid.IntRange(0, len(inArr)-1).Draw(rt, "inarr")]
+		case w < 4:
+			c = arrs[rapid.IntRange(0, len(arrs)-1).Draw(rt, "toparr")]
+		}
+		insertBelow = 3
+	}
 	if c.isArr {
 		op := rapid.IntRange(0, 9).Draw(rt, "arrop")
 		switch {
-		case c.size == 0 || op < 5:
+		case c.size == 0 || op < insertBelow:
 			return sim.Call{M: "InsertToArray", Path: c.path, Pos: m.genPos(rt, "ains", c.size, true), Vals: m.genArrVals(rt, r, "ains", 0, view, c, -1)}
 		case op < 7:
 			pos := m.genPos(rt, "aupd", c.size, false)
@@ -484,6 +533,35 @@ func (m *l0Machine) gen(rt *rapid.T) l0Action {
 	n := len(m.w.Reps)
 	r := rapid.IntRange(0, n-1).Draw(rt, "replica")
 	c := rapid.IntRange(0, 99).Draw(rt, "action")
+	if m.cfg.WideFirst && m.steps < m.cfg.Replicas && m.steps < n {
+		r = m.steps
+		k := rapid.IntRange(11, 25).Draw(rt, "wide")
+		vs := make([]sim.Val, 0, k)
+		for i := 0; i < k; i++ {
+			switch {
+			case m.cfg.Tagged:
+				vs = append(vs, m.nextTag(r))
+			case m.cfg.Kind == sim.Document && i%5 == 4:
+				vs = append(vs, sim.Obj(sim.KV{K: "w", V: sim.I(int64(i))}))
+			default:
+				vs = append(vs, sim.I(int64(i)))
+			}
+		}
+		if m.cfg.Kind == sim.List {
+			call := sim.Call{M: "InsertMany", Pos: 0, Vals: vs}
+			return l0Action{K: "local", R: r, Call: &call}
+		}
+		key := "arr"
+		if !m.cfg.ArrayOnly {
+			key = fmt.Sprintf("w%d", r)
+		}
+		call := sim.Call{M: "PutToObject", Key: key, Vals: []sim.Val{sim.Arr(vs...)}}
+		return l0Action{K: "local", R: r, Call: &call}
+	}
+	if m.cfg.WideFirst && m.steps >= m.cfg.Replicas && m.steps < m.cfg.Replicas+m.cfg.SoloRun {
+		call := m.genCall(rt, 0, m.docView(0))
+		return l0Action{K: "local", R: 0, Call: &call}
+	}
 	if m.cfg.TxPct > 0 && rapid.IntRange(0, 99).Draw(rt, "txbias") < m.cfg.TxPct {
 		c = 58
 	}
